@@ -22,7 +22,7 @@ using i128 = __int128;
 // The unit-test allocator stub hands out 64 KB per pooled object; with ASan's default 256 MB quarantine every case
 // then touches fresh pages (0.8 ms/case).  A smaller quarantine keeps the search fast; detection of the errors this
 // property is about (overflow, bad arithmetic) is unaffected.  Options given in ASAN_OPTIONS still win.
-extern "C" const char *__asan_default_options() { return "quarantine_size_mb=8:malloc_context_size=2"; }
+extern "C" const char *__asan_default_options() { return "quarantine_size_mb=4:malloc_context_size=2"; }
 
 static const char *const SigUb = "ubsan:signed-integer-overflow:HttpHdrRange.cc";
 
